@@ -1,4 +1,5 @@
 import MetadorModel.Proofs.Paths
+import MetadorModel.Proofs.PathsAlias
 import MetadorModel.Bridge.GroupMethods
 import MetadorModel.Bridge.Paths
 /-!
@@ -344,6 +345,167 @@ example :
     (userView (ops.foldl (fun r op => applyRaw op r) raw)).map (·.name) =
       ["/foo".toList, "/baz".toList, "/baz/bar".toList] ∧
     (ops.map fun o => (o.isUser, o.isBookkeeping)) = [(true, false), (false, true), (false, true), (true, false)] := by
+  decide
+
+/-! ## Paths handed over as other types
+
+What a caller passes where a path is expected need not be a `str`: the raw h5py driver takes
+`bytes` names as well. `_guard_path` starts with `is_internal_path(path)` on the value as it was
+handed over (`Bridge.GroupMethods.guard_path_shape`), which raises for everything that is not a
+`str` — so a reserved path cannot be smuggled past the guard by spelling it differently. -/
+
+/-- the typed model extends the `str` model: on `str` arguments the guards decide alike -/
+theorem typed_guards_extend_str (loc ro : Bool) (ss : List Str) (gs : List Guard) :
+    runGuardsV loc ro (ss.map PathVal.str) gs =
+      match runGuards loc ro ss gs with
+      | .ok u => .ok u
+      | .error e => .error (.guard e) :=
+  runGuardsV_str loc ro ss gs
+
+/-- A method whose guard sequence covers all its path-typed argument positions, called with a
+value in one of these positions that is not a `str`, or that spells (as `str` or as `bytes`) a
+path with a reserved segment, raises and leaves the raw state unchanged — whatever the other
+arguments, the ACL flags, the raw operation and the raw state are. -/
+theorem typed_rejected {σ : Type} (m : MethodShape) (hm : m.guardsAllPaths = true)
+    (raw : σ → List PathVal → Except VErr σ) (s : σ) (loc ro : Bool) (args : List PathVal)
+    (i : Nat) (hi : i ∈ m.pathArgs) (v : PathVal) (hp : args[i]? = some v)
+    (hv : v.isStr = false ∨ ∃ p, v.text = some p ∧ hasReservedSeg p) :
+    (∃ e, wrappedCallV loc ro m.guards raw s args = .error e) ∧
+    stateAfterV s (wrappedCallV loc ro m.guards raw s args) = s := by
+  have hg : Guard.path i ∈ m.guards := by
+    have := List.all_eq_true.mp hm i hi
+    simpa using this
+  have hbad : ∃ e, guardPathV loc v = .error e := by
+    rcases hv with hns | ⟨p, ht, hr⟩
+    · exact ⟨_, guardPathV_nonstr loc v hns⟩
+    · cases v with
+      | str q =>
+        simp only [PathVal.text, Option.some.injEq] at ht
+        subst ht
+        exact ⟨_, guardPathV_reserved loc q ((isInternalPath_iff q).mpr hr)⟩
+      | bytes q => exact ⟨_, guardPathV_nonstr loc _ rfl⟩
+      | other => exact ⟨_, guardPathV_nonstr loc _ rfl⟩
+  obtain ⟨e, he⟩ := runGuardsV_rejects loc ro args i v hp hbad m.guards hg
+  have : wrappedCallV loc ro m.guards raw s args = .error e := by simp [wrappedCallV, he]
+  exact ⟨⟨e, this⟩, by rw [this]; rfl⟩
+
+/-- … for every method of the table extracted from the current source and every argument
+position. -/
+theorem typed_rejected_table {σ : Type} (m : GMethod) (hm : m ∈ Gen.groupMethods)
+    (raw : σ → List PathVal → Except VErr σ) (s : σ) (loc ro : Bool) (args : List PathVal)
+    (i : Nat) (hi : i < m.userPaths.length) (v : PathVal) (hp : args[i]? = some v)
+    (hv : v.isStr = false ∨ ∃ p, v.text = some p ∧ hasReservedSeg p) :
+    (∃ e, wrappedCallV loc ro m.shape.guards raw s args = .error e) ∧
+    stateAfterV s (wrappedCallV loc ro m.shape.guards raw s args) = s := by
+  have h := methods_guarded m hm
+  simp only [GMethod.guardsAllPaths, Bool.and_eq_true, beq_iff_eq] at h
+  obtain ⟨⟨⟨⟨⟨h1, _⟩, _⟩, _⟩, _⟩, h6⟩ := h
+  have hi' : i ∈ m.shape.pathArgs := by rw [h6]; exact List.mem_range.mpr hi
+  exact typed_rejected m.shape h1 raw s loc ro args i hi' v hp hv
+
+/-- non-vacuity: `move` with the destination `b"metador_container"` / `b"plain"` / a tuple is
+refused, with `"plain"` it reaches the raw operation -/
+example : ∃ m, Gen.groupMethods.find? (fun m => m.name == "move") = some m ∧
+    refusedNotStr (wrappedCallV false false m.shape.guards (fun (s : Nat) _ => .ok (s + 1)) 5
+      [.str "x".toList, .bytes "metador_container".toList]) = true ∧
+    refusedNotStr (wrappedCallV false false m.shape.guards (fun (s : Nat) _ => .ok (s + 1)) 5
+      [.str "x".toList, .bytes "plain".toList]) = true ∧
+    refusedNotStr (wrappedCallV false false m.shape.guards (fun (s : Nat) _ => .ok (s + 1)) 5
+      [.other, .str "plain".toList]) = true ∧
+    (wrappedCallV false false m.shape.guards (fun (s : Nat) _ => .ok (s + 1)) 5
+      [.str "x".toList, .str "plain".toList]).toOption = some 6 := ⟨_, rfl, by decide, by decide, by decide, by decide⟩
+
+/-! ## Values that name or reference other nodes
+
+The path guard looks at the name a value is stored under, the listing filter at the name a node
+is reported under. A link stored under an ordinary name makes its target reachable — and
+listed — under ordinary names. `MetadorGroup.__setitem__` therefore refuses every value of a
+link / reference class before anything else (`Bridge.GroupMethods.link_values_refused`). -/
+
+/-- a value of a link / reference class is refused by `__setitem__`, whatever the name, the ACL
+flags and the raw driver are, and nothing happens to the raw state -/
+theorem link_values_refused {σ : Type} (refused : List String) (h : ∀ ty ∈ linkTypes, ty ∈ refused)
+    (loc ro : Bool) (raw : σ → PathVal → SetVal → Except VErr σ) (s : σ) (name : PathVal) (v : SetVal)
+    (hv : v.isLink = true) :
+    setitemV refused loc ro raw s name v = .error .refValue ∧
+    stateAfterV s (setitemV refused loc ro raw s name v) = s := by
+  have : setitemV refused loc ro raw s name v = .error .refValue := by
+    simp [setitemV, valueRefused_of_link refused h v hv]
+  exact ⟨this, by rw [this]; rfl⟩
+
+/-- … in particular with the list of refused classes of the current source -/
+theorem link_values_refused_src {σ : Type} (loc ro : Bool) (raw : σ → PathVal → SetVal → Except VErr σ)
+    (s : σ) (name : PathVal) (v : SetVal) (hv : v.isLink = true) :
+    setitemV Gen.refusedValueTypes loc ro raw s name v = .error .refValue :=
+  (link_values_refused Gen.refusedValueTypes Bridge.GroupMethods.link_values_refused.2 loc ro raw s name v hv).1
+
+/-- a value that would be stored as a named datatype (`numpy.dtype`, `h5py.Datatype`) is refused
+likewise (F35) … -/
+theorem type_values_refused {σ : Type} (refused : List String) (h : ∀ ty ∈ typeTypes, ty ∈ refused)
+    (loc ro : Bool) (raw : σ → PathVal → SetVal → Except VErr σ) (s : σ) (name : PathVal) (v : SetVal)
+    (hv : v.isType = true) :
+    setitemV refused loc ro raw s name v = .error .refValue ∧
+    stateAfterV s (setitemV refused loc ro raw s name v) = s := by
+  have : setitemV refused loc ro raw s name v = .error .refValue := by
+    simp [setitemV, valueRefused_of_type refused h v hv]
+  exact ⟨this, by rw [this]; rfl⟩
+
+/-- … so no history of assignments through the wrapper (with the refused classes of the current
+source) creates a node that is neither group nor dataset: everything a lookup hands out is a
+wrapper object, never the raw driver object with its unfiltered `.parent` / `.file`. -/
+theorem no_raw_handle_escapes (t0 : LRaw) (h0 : t0.types = []) (cs : List SetCall) (p : Str) :
+    handedOutWrapped (runSets Gen.refusedValueTypes t0 cs) p = true := by
+  simp [handedOutWrapped, runSets_types Gen.refusedValueTypes Bridge.GroupMethods.type_values_refused, h0]
+
+/-- before F35 (`_H5_TYPE_TYPES` not refused) one assignment was enough -/
+theorem legacy_named_type_escapes :
+    let t0 : LRaw := ⟨[⟨"/foo".toList, true⟩, ⟨"/metador_container".toList, true⟩], [], []⟩
+    handedOutWrapped (runSets linkTypes t0 [⟨"/".toList, .str "t".toList, .namedType⟩]) "/t".toList = false ∧
+    handedOutWrapped (runSets (linkTypes ++ typeTypes) t0 [⟨"/".toList, .str "t".toList, .namedType⟩]) "/t".toList = true := by
+  decide
+
+/-- no history of assignments through the wrapper ever stores a link -/
+theorem links_never_accepted (refused : List String) (h : ∀ ty ∈ linkTypes, ty ∈ refused)
+    (t : LRaw) (cs : List SetCall) : (runSets refused t cs).links = t.links :=
+  runSets_links refused h t cs
+
+/-- Hence, starting from a tree without links, after any history of assignments — names and
+values of every kind — every name a group lists is free of reserved segments, is not a reserved
+path, and denotes the entity of that very name: nothing the user sees or reaches by the names
+shown to him is a bookkeeping entity. -/
+theorem visible_names_are_user_entities (refused : List String) (h : ∀ ty ∈ linkTypes, ty ∈ refused)
+    (t0 : LRaw) (h0 : t0.links = []) (cs : List SetCall) (fuel : Nat) (g k : Str)
+    (hk : k ∈ keysL (runSets refused t0 cs) fuel g) :
+    ¬ hasReservedSeg k ∧ isInternalPath (childName g k) = false ∧
+    denotes (runSets refused t0 cs) fuel (childName g k) = childName g k := by
+  have hl : (runSets refused t0 cs).links = [] := by rw [runSets_links refused h, h0]
+  refine ⟨?_, ?_, ?_⟩
+  · rw [keysL_nolinks _ hl] at hk
+    exact (userView_hides _ g).1 k hk
+  · unfold keysL at hk
+    simpa using (List.mem_filter.mp hk).2
+  · simp [denotes, hl, resolve_nil]
+
+theorem visible_names_are_user_entities_src (t0 : LRaw) (h0 : t0.links = []) (cs : List SetCall)
+    (fuel : Nat) (g k : Str) (hk : k ∈ keysL (runSets Gen.refusedValueTypes t0 cs) fuel g) :
+    ¬ hasReservedSeg k ∧ isInternalPath (childName g k) = false ∧
+    denotes (runSets Gen.refusedValueTypes t0 cs) fuel (childName g k) = childName g k :=
+  visible_names_are_user_entities Gen.refusedValueTypes Bridge.GroupMethods.link_values_refused.2 t0 h0 cs fuel g k hk
+
+/-- The refusal cannot be relaxed. With `SoftLink` taken out of the refused classes, one
+assignment under the ordinary name `toc` makes the table of contents appear in `keys()` of the
+root, `toc` and `toc/links` pass the name-based filter, and both denote bookkeeping entities. -/
+theorem softlink_accepted_exposes :
+    let t0 : LRaw := ⟨[⟨"/foo".toList, true⟩, ⟨"/metador_container".toList, true⟩,
+      ⟨"/metador_container/links".toList, true⟩], [], []⟩
+    let t := runSets ["HardLink", "ExternalLink", "Reference"] t0
+      [⟨"/".toList, .str "toc".toList, .softLink "/metador_container".toList⟩]
+    keysL t 4 "/".toList = ["foo".toList, "toc".toList] ∧
+    keysL t 4 "/toc".toList = ["links".toList] ∧
+    isInternalPath (denotes t 4 "/toc".toList) = true ∧
+    isInternalPath (denotes t 4 "/toc/links".toList) = true ∧
+    -- … whereas the same assignment is refused by the source as it is
+    (runSets linkTypes t0 [⟨"/".toList, .str "toc".toList, .softLink "/metador_container".toList⟩]).links = [] := by
   decide
 
 end MetadorModel.C08
